@@ -9,7 +9,7 @@ package macho
 //@   nopanic
 //@   requires r != nil
 //@   ghost ok bool = false
-//@   before call machos.Verify(src, _, _, skip): assert @image_verified_with_the_callers_digest_choice src == r && skip == opts.NoDigests
+//@   before call machos.Verify(src, p, res, skip): assert @image_verified_with_the_callers_digest_choice_and_bundle_files src == r && skip == opts.NoDigests && sameslice(p, infoPlist) && sameslice(res, resources)
 //@   on call machos.Verify(_, _, _, _) ret (s, e): ok = (e == nil)
 //@   ensures @signature_reported_only_for_a_verified_image ret1 == nil ==> ok && ret0 != nil
 //@   loop 0 sig "for _, unk := range sig.Blob.Unknowns" invariant sig != nil && sig.Blob != nil && forall(k, 0, len(sig.Blob.Unknowns), len(sig.Blob.Unknowns[k]) >= 8)
@@ -48,7 +48,23 @@ package macho
 //@   ghost verified int = 0
 //@   ghost narch int = -1
 //@   on call debug/macho.NewFatFile(_) ret (ff, e): narch = ite(e == nil, len(ff.Arches), -1)
-//@   before call verifyMacho(src, _, _, o): assert @every_image_is_verified_with_the_callers_options o == opts && src != nil
+//@   before call verifyMacho(src, p, res, o): assert @every_image_is_verified_with_the_callers_options_and_bundle_files o == opts && src != nil && sameslice(p, infoPlist) && sameslice(res, resources)
 //@   on call verifyMacho(_, _, _, _) ret (s, e): failed = failed || e != nil; verified = verified + ite(e == nil, 1, 0)
 //@   loop 0 sig "for _, arch := range fatFile.Arches" invariant -1 <= rangeindex && !failed && fatFile != nil && len(sigs) == rangeindex + 1 && verified == rangeindex + 1 && (sigs == nil || allocated(sigs))
 //@   ensures @one_signature_per_image_and_none_of_them_failed ret1 == nil ==> !failed && verified == len(ret0) && verified >= 1 && (narch >= 0 ==> verified == narch)
+//@
+//@ func verifyIPA
+//@   property C02
+//@   requires f != nil
+//@   ghost plistG []byte = nil
+//@   ghost resG []byte = nil
+//@   ghost extracted bool = false
+//@   ghost ok bool = false
+//@   on call readPlist(_) ret (dir, b, e): plistG = b
+//@   on call readResources(_, _) ret (b, e): resG = b
+//@   before call extractExecutable(z, w, _): assert @executable_comes_from_the_same_archive_into_the_file_that_is_verified z == zr && w == iface(fe)
+//@   on call extractExecutable(_, _, _) ret (e): extracted = (e == nil)
+//@   before call verifyFat(fr, p, res, o): assert @extracted_executable_is_verified_against_the_bundles_own_plist_and_resource_manifest extracted && fr == iface(fe) && \
+//@        sameslice(p, plistG) && sameslice(res, resG) && o == opts
+//@   on call verifyFat(_, _, _, _) ret (s, e): ok = (e == nil)
+//@   ensures @signatures_only_for_a_verified_executable ret1 == nil ==> ok
